@@ -512,12 +512,25 @@ NextPollOf(k, i) ==       \* the next result reported for operation k at or afte
 
 V(prop, clause, detail) == <<prop, clause, l, detail>>
 
+\* look-ahead (classification only): is the next poll of the context task one without a wake-up that nevertheless
+\* makes progress (writes something)?  Then the stall at this point was a lost wake-up, not a missing reaction.
+RECURSIVE LostWakeupAhead(_)
+LostWakeupAhead(i) ==
+  IF i > N \/ Rec[i].e \in {"reset", "end"} THEN FALSE
+  ELSE IF Rec[i].e = "ctxb" THEN Rec[i].woken = 0 /\ i + 1 <= N /\ Rec[i + 1].e = "wr"
+  ELSE LostWakeupAhead(i + 1)
+Stall(detail) == IF LostWakeupAhead(l + 1) THEN V(<<"C03", "C16">>, "lost-wakeup", detail) ELSE V("C03", "unread-input", detail)
+
 HeadNotWritten ==
   LET m == Head(msgQ) nx == NextPollOf(m.op, l) IN
     IF nx.kind = "MaximumPacketSizeExceeded" THEN V("C12", "rejected-under-limit", <<m.pk.t, m.pk.len, S.M>>)
     ELSE IF nx.kind = "QuotaExceeded" THEN V("C10", "rejected-under-quota", <<S.quota, S.R>>)
     ELSE IF m.pk.t \in {"PUBLISH", "PUBREL"} THEN V("C06", "request-not-written", <<m.pk.t, nx.kind>>)
     ELSE V("C05", "request-not-written", <<m.pk.t, nx.kind>>)
+
+\* the reference has (on this branch) already refused the request with this topic for the given reason
+RefusedBy(tag, kind) ==
+  \E k \in DOMAIN ops : ops[k].req.tag = tag /\ ops[k].slot # <<>> /\ ops[k].slot[1].k = "res" /\ ops[k].slot[1].res.kind = kind
 
 ClassifyWr(pk) ==
   IF ph # "run" \/ discW THEN V("C13", "write-after-end", pk.t)
@@ -527,6 +540,8 @@ ClassifyWr(pk) ==
        THEN V("C17", "unexpected-retransmission", <<pk.t, pk.id>>)
   ELSE IF pk.t \in {"PUBACK", "PUBREC", "PUBCOMP"} THEN
          V("C08", "unexpected-ack", <<pk.t, pk.id, IF netIn # <<>> THEN <<Head(netIn).t, Head(netIn).id, Head(netIn).qos>> ELSE <<>> >>)
+  ELSE IF pk.t = "PUBLISH" /\ RefusedBy(pk.tag, "QuotaExceeded") THEN V("C10", "written-over-quota", <<pk.id, S.R>>)
+  ELSE IF pk.t = "PUBLISH" /\ RefusedBy(pk.tag, "MaximumPacketSizeExceeded") THEN V("C12", "written-over-limit", <<pk.t, pk.len, S.M>>)
   ELSE IF msgQ # <<>> /\ (Head(msgQ).pk.t # pk.t \/ (pk.t = "PUBLISH" /\ Head(msgQ).pk.tag # pk.tag))
           /\ \E i \in 2..Len(msgQ) : msgQ[i].pk.t = pk.t /\ (pk.t = "PUBLISH" => msgQ[i].pk.tag = pk.tag)
        THEN HeadNotWritten          \* a later request was written: the head of the queue was passed over
@@ -545,7 +560,8 @@ ClassifyWr(pk) ==
        ELSE V("C06", "request-mismatch", pk.t)
 
 ExpectedWriteMissing ==
-  IF blockedOn # <<>> THEN V("C08", "ack-missing", <<blockedOn[1].wr.t, blockedOn[1].wr.id>>)
+  IF Ln.e = "ctxe" /\ LostWakeupAhead(l + 1) THEN V(<<"C03", "C16">>, "lost-wakeup", <<Len(netIn), Len(msgQ), Ln.unread>>)
+  ELSE IF blockedOn # <<>> THEN V("C08", "ack-missing", <<blockedOn[1].wr.t, blockedOn[1].wr.id>>)
   ELSE IF resumeQ # <<>> THEN V("C17", "resume-missing", <<Head(resumeQ).t, Head(resumeQ).id>>)
   ELSE IF netIn # <<>> /\ HandlePkt(S, Head(netIn)).wr # <<>> /\ (msgQ = <<>> \/ Ln.unread = 0)
        THEN V("C08", "ack-missing", <<Head(netIn).t, Head(netIn).qos, Head(netIn).id, Len(Head(netIn).sids)>>)
@@ -555,11 +571,11 @@ ExpectedWriteMissing ==
 ClassifyCtxEnd(res) ==
   IF res.r = "panic" THEN V("C04", "panic-in-context", IF "msg" \in DOMAIN res THEN res.msg ELSE "")
   ELSE IF res.r = "pending" THEN
-         (IF inCtx = "spur" /\ ~NoWorkLeft THEN V("C16", "work-without-wakeup", <<Len(msgQ), Len(netIn), Ln.unread>>)
+         (IF inCtx = "spur" /\ ~NoWorkLeft THEN V(<<"C03", "C16">>, "work-without-wakeup", <<Len(msgQ), Len(netIn), Ln.unread>>)
           ELSE IF retd # <<>> THEN V("C13", "no-return", retd[1].kind)
           ELSE IF netIn = <<>> /\ msgQ = <<>> /\ netEnd # "open" THEN V("C13", "no-return", "SocketClosed")
           ELSE IF netIn = <<>> /\ msgQ = <<>> /\ ~HandlesAlive THEN V("C13", "no-return", "HandleClosed")
-          ELSE IF netIn = <<>> /\ msgQ = <<>> /\ Ln.unread > 0 THEN V("C03", "unread-input", Ln.unread)
+          ELSE IF netIn = <<>> /\ msgQ = <<>> /\ Ln.unread > 0 THEN Stall(Ln.unread)
           ELSE ExpectedWriteMissing)
   ELSE \* returned
        IF retd = <<>> THEN
